@@ -192,6 +192,8 @@ Ltac fold_nat := repeat match goal with
   | |- context [Z.to_nat ?a] => is_zc a; fold1 (Z.to_nat a)
   | |- context [(?a * ?b)%nat] => is_nc a; is_nc b; fold1 (a * b)%nat
   | |- context [(?a =? ?b)%nat] => is_nc a; is_nc b; fold1 (a =? b)%nat
+  | |- context [(?a - ?b)%nat] => is_nc a; is_nc b; fold1 (a - b)%nat
+  | |- context [(?a + ?b)%nat] => is_nc a; is_nc b; fold1 (a + b)%nat
   end.
 Ltac dec_fin := match goal with |- context [if ?c then _ else _] =>
   first [ replace c with false by (symmetry; lia) | replace c with true by (symmetry; lia) ] end.
@@ -321,6 +323,33 @@ Proof.
   rewrite with_header_ok by (unfold zeros; rewrite repeat_length; change BS with 16%nat; lia). cbn [Crypt.bind].
   match goal with |- context [zeros ?n2] => match goal with |- context [repeat 0 (Z.to_nat ?z)] =>
     replace n2 with (Z.to_nat z) by (unfold cbc_encrypt_len, zlen; rewrite masked_land; change BS with 16%nat; change aes_block_size with 16; unfold zlen in *; lia) end end.
+  fold_nat. change BS with 16%nat. unfold zeros. change header with v_fixedSaltHeader.
+  match goal with |- context [put (put ?d 0%nat ?h) 8%nat s] => set (DST := put (put d 0%nat h) 8%nat s);
+    assert (LD : (16 <= length DST)%nat) by (unfold DST; rewrite !length_put; rewrite ?length_put, ?repeat_length; lia) end.
+  destruct (Nat.ltb_spec (length DST) 16); [lia|].
+  match goal with |- context [buf_res _ ?r] => destruct r end; cbn [buf_res GoSem.bind bytes_res9]; cbv beta iota; rewrite ?firstn_skipn; reflexivity.
+Qed.
+
+Theorem code_SaltBySecretGCMEncrypt : forall osalt fuel p secret ad, (4 <= fuel)%nat ->
+  (forall s, osalt = Some s -> length s = 8%nat) ->
+  g_SaltBySecretGCMEncrypt fuel (stdc E D seal open md5 osalt) p secret ad = bytes_res9 (salt_gcm_encrypt seal md5 osalt p secret ad).
+Proof.
+  intros osalt fuel p secret ad Hf Hs. unfold g_SaltBySecretGCMEncrypt.
+  pose proof (zlen_nonneg p) as Hp.
+  repeat ev2.
+  destruct osalt as [s|].
+  2:{ repeat ev2. reflexivity. }
+  specialize (Hs s eq_refl).
+  change (fill_loop md5 3 0 (zeros 16) secret s (repeat 0 48)) with (fill_cred md5 secret s).
+  unfold salt_gcm_encrypt.
+  destruct (fill_cred md5 secret s) as [c|e|] eqn:HF; cbn [cred_res Crypt.bind bytes_res9 GoSem.bind].
+  3: reflexivity. 2:{ apply fill_loop_no_err in HF. contradiction. }
+  assert (Lc : zlen c = 48) by (apply fill_loop_len in HF; unfold zlen; rewrite HF; reflexivity).
+  repeat ev2.
+  rewrite key_nonce_48 by assumption. cbn [Crypt.bind].
+  rewrite with_header_ok by (unfold zeros; rewrite repeat_length; change BS with 16%nat; lia). cbn [Crypt.bind].
+  match goal with |- context [zeros ?n2] => match goal with |- context [repeat 0 (Z.to_nat ?z)] =>
+    replace n2 with (Z.to_nat z) by (unfold gcm_encrypt_len, zlen; change BS with 16%nat; change gcm_tag_size with 16; unfold zlen in *; lia) end end.
   fold_nat. change BS with 16%nat. unfold zeros. change header with v_fixedSaltHeader.
   match goal with |- context [put (put ?d 0%nat ?h) 8%nat s] => set (DST := put (put d 0%nat h) 8%nat s);
     assert (LD : (16 <= length DST)%nat) by (unfold DST; rewrite !length_put; rewrite ?length_put, ?repeat_length; lia) end.
